@@ -30,6 +30,10 @@ pub fn set_mode(m: u8) -> u8 {
     MODE.with(|c| c.replace(m))
 }
 
+pub fn current_mode() -> u8 {
+    mode()
+}
+
 fn mode() -> u8 {
     MODE.try_with(|c| c.get()).unwrap_or(OFF)
 }
@@ -153,6 +157,15 @@ unsafe fn zones_ok(user: *mut u8, size: usize) -> bool {
     f.iter().all(|&x| x == RZ_FRONT) && b.iter().all(|&x| x == RZ_BACK)
 }
 
+/// Can `p` be the address of a block handed out by this allocator?  Rejects what a corrupted
+/// implementation typically passes to `dealloc`: pointers read from poisoned (0xDD…), fresh
+/// (0xFF…) or red-zone memory, null-page and non-canonical addresses.  Such a free is recorded
+/// as a violation and swallowed instead of dereferencing a header that is not there.
+fn plausible(p: *mut u8, align: usize) -> bool {
+    let a = p as usize;
+    a >= 0x1000 && a >> 56 == 0 && (align == 0 || a % align == 0)
+}
+
 fn class_alloc(align: usize) -> usize {
     if align >= 8 {
         0
@@ -202,6 +215,10 @@ impl Tracking {
 
     /// returns false if the block must not be touched (unknown / already freed)
     unsafe fn do_dealloc(&self, user: *mut u8, layout: Layout, count: bool) {
+        if !plausible(user, layout.align()) {
+            with_table(|t| violate(t, V_FREE_UNKNOWN, 0, layout.size()));
+            return;
+        }
         let h = header(user);
         let magic = (*h).magic;
         if magic != MAGIC_LIVE {
@@ -263,6 +280,12 @@ unsafe impl GlobalAlloc for Tracking {
     }
     unsafe fn realloc(&self, ptr: *mut u8, layout: Layout, new_size: usize) -> *mut u8 {
         let Ok(nl) = Layout::from_size_align(new_size, layout.align()) else { return std::ptr::null_mut() };
+        if !plausible(ptr, layout.align()) || (*header(ptr)).magic != MAGIC_LIVE {
+            // growing a block that is not ours / already freed: record, hand out fresh memory
+            let kind = if plausible(ptr, layout.align()) && (*header(ptr)).magic == MAGIC_FREED { V_DOUBLE_FREE } else { V_FREE_UNKNOWN };
+            with_table(|t| violate(t, kind, 0, layout.size()));
+            return self.do_alloc(nl, false, Some(FRESH));
+        }
         // a block registered in the table stays registered when it moves
         let was_reg = (*header(ptr)).magic == MAGIC_LIVE && (*header(ptr)).info & F_REG != 0;
         let m = mode();
